@@ -183,13 +183,8 @@ def run(chk, F):
                                   ("UTAP::TypeChecker::visitLocation", "isInvariantWR", ("loc", "invariant"),
                                    "invariant")):
         fn = F.fn(fnq)
-        al = G.collect_aliases(fn)
-        gs = [g for g in G.find_gates(fn, {pred}, al) if g.subject == subj]
-        good = []
-        for g in gs:
-            if g.pol == -1 and g.reports and all(G.guard_allowed(i, s, subj, al) for i, s in g.guards):
-                good.append(g)
-        chk.ob(rid, "%s|%s" % (fnq.split("::")[-1], what), bool(good),
-               "%s does not reject a %s that fails %s on every path (found %d test(s), none with an error-reporting "
-               "failing branch reached unconditionally)" % (fnq, what, pred, len(gs)) if not good else
-               "%s gates the %s on %s" % (fnq, what, pred), "%s:%s" % (fn["file"], fn["line"]))
+        g, cands = G.gated(fn, subj, pred, True)
+        chk.ob(rid, "%s|%s" % (fnq.split("::")[-1], what), g is not None,
+               "%s does not reject a %s that fails %s on every path (%d test(s) of %s on it found, none with an "
+               "error-reporting branch that is reached unconditionally)" % (fnq, what, pred, len(cands), pred)
+               if g is None else "%s gates the %s on %s" % (fnq, what, pred), "%s:%s" % (fn["file"], fn["line"]))
